@@ -38,6 +38,7 @@ use tendermint::{
 };
 
 use super::{
+    ibc,
     gen,
     gen::{
         BuiltTx,
@@ -75,6 +76,8 @@ pub(super) struct Sim {
     pub(super) upgrades: (u64, u64),
     pub(super) last_lab_dump: BTreeMap<String, String>,
     pub(super) committed_txs: Vec<BuiltTx>,
+    pub(super) in_flight: Vec<ibc::InFlight>,
+    pub(super) packet_seq: u64,
     pub(super) ok: bool,
 }
 
@@ -304,6 +307,8 @@ impl Sim {
             upgrades: (aspen, blackburn),
             last_lab_dump: BTreeMap::new(),
             committed_txs: vec![],
+            in_flight: vec![],
+            packet_seq: 0,
             ok: true,
         };
         sim.init_chain().await;
@@ -509,7 +514,100 @@ impl Sim {
         let included: std::collections::HashSet<String> = tx_ids(&ctx.txs).into_iter().collect();
         for b in built {
             if included.contains(&b.id) {
+                for a in &b.actions {
+                    if a["kind"] == "ics20_withdrawal" {
+                        self.packet_seq += 1;
+                        let chan: u64 = a["channel"].as_str().unwrap_or("channel-0").trim_start_matches("channel-").parse().unwrap_or(0);
+                        let sender = if a["compat"].as_bool().unwrap_or(false) {
+                            let addr: astria_core::primitive::v1::Address = a["return_str"].as_str().unwrap().parse().unwrap();
+                            crate::test_utils::astria_compat_address(&addr.bytes()).to_string()
+                        } else {
+                            a["return_str"].as_str().unwrap().to_string()
+                        };
+                        self.in_flight.push(ibc::InFlight {
+                            local_channel: chan,
+                            denom: a["denom"].as_str().unwrap().to_string(),
+                            amount: a["amount"].as_str().unwrap().parse().unwrap(),
+                            sender,
+                            memo: a["memo"].as_str().unwrap_or("").to_string(),
+                            sequence: self.packet_seq,
+                            sender_b64: a["return"].as_str().unwrap().to_string(),
+                        });
+                    }
+                }
                 self.committed_txs.push(b);
+            }
+        }
+        if self.profile == "ibc" || self.profile == "mixed" {
+            self.run_packets().await;
+        }
+    }
+
+    /// Between two heights: deliver IBC packets (incoming transfers; ack / time-out of our own in-flight packets) through
+    /// the `Ics20Transfer` handlers on every node identically, each as its own committed system transaction. The lab
+    /// records the full-state diff of the handler.
+    async fn run_packets(&mut self) {
+        let n = self.rng.gen_range(0..=3);
+        for _ in 0..n {
+            let spec = if !self.in_flight.is_empty() && self.rng.gen_bool(0.4) {
+                let k = self.rng.gen_range(0..self.in_flight.len());
+                let f = self.in_flight.remove(k);
+                ibc::gen_return(&mut self.rng, &f)
+            } else {
+                self.packet_seq += 1;
+                let snap = self.lab.storage.latest_snapshot();
+                ibc::gen_incoming(&self.uni, &mut self.rng, &snap, self.packet_seq).await
+            };
+            let salt = self.packet_seq * 1000 + self.height;
+            // lab first, with observation
+            let before = self.last_lab_dump.clone();
+            let mut results = vec![];
+            {
+                let node = &mut self.lab;
+                let mut delta = node.app.new_state_delta();
+                let res = vlog_guard_async(ibc::run_handler(&mut delta, &spec, salt)).await;
+                let after = dump_state(&delta).await;
+                let (result, applied) = match &res {
+                    Ok(Ok(())) => ("ok".to_string(), true),
+                    Ok(Err(e)) => (format!("err:{}", short(e)), false),
+                    Err(p) => (format!("panic:{p}"), false),
+                };
+                let mut events = vec![];
+                if applied {
+                    events = node.app.apply(delta);
+                    node.app.prepare_commit(node.storage.clone(), Vec::new()).await.expect("prepare_commit");
+                    node.app.commit(node.storage.clone()).await.expect("commit");
+                } else {
+                    drop(delta);
+                }
+                let committed = dump_state(&node.storage.latest_snapshot()).await;
+                let base = if applied { strip_ephemeral(&after) } else { before.clone() };
+                self.log.ev(json!({"kind": "lab_packet", "hist": self.hist, "height": self.height, "packet": spec.to_json(), "result": result,
+                    "applied": applied, "events": events_json(&events), "diff": diff_of(&before, &after), "commit_diff": diff_of(&base, &committed),
+                    "state_digest": digest_of(&committed)}));
+                self.last_lab_dump = committed;
+                results.push(result);
+            }
+            for i in 0..self.nodes.len() {
+                let node = &mut self.nodes[i];
+                let mut delta = node.app.new_state_delta();
+                let res = vlog_guard_async(ibc::run_handler(&mut delta, &spec, salt)).await;
+                let result = match &res {
+                    Ok(Ok(())) => "ok".to_string(),
+                    Ok(Err(e)) => format!("err:{}", short(e)),
+                    Err(p) => format!("panic:{p}"),
+                };
+                if result == "ok" {
+                    let _ = node.app.apply(delta);
+                    node.app.prepare_commit(node.storage.clone(), Vec::new()).await.expect("prepare_commit");
+                    node.app.commit(node.storage.clone()).await.expect("commit");
+                } else {
+                    drop(delta);
+                }
+                let dump = dump_state(&node.storage.latest_snapshot()).await;
+                self.log.ev(json!({"kind": "packet_commit", "hist": self.hist, "height": self.height, "node": i, "result": result,
+                    "state_digest": digest_of(&dump)}));
+                results.push(result);
             }
         }
     }
